@@ -61,11 +61,12 @@ type History struct {
 	phase int
 	ds    []ref.Directive
 	// price forest: parent[i] is the index of the parent commodity of coms[i] (-1 for root)
-	parent    []int
-	priced    map[[3]string]bool    // (day, a, b) with a<b: a price for the pair was declared that day
-	never     map[int]bool          // Prices == 2: edges that are never declared
-	lastPrice map[int]ref.Directive // last declaration per edge
-	descN     int
+	parent      []int
+	priced      map[[3]string]bool    // (day, a, b) with a<b: a price for the pair was declared that day
+	never       map[int]bool          // Prices == 2: edges that are never declared
+	lastPrice   map[int]ref.Directive // last declaration per edge
+	lastAccrual *ref.Accrual
+	descN       int
 }
 
 // GenJournal draws an accepted journal (by construction, per the statement of C04).
@@ -600,12 +601,26 @@ func (h *History) step(act int) {
 		if iv == "daily" && length > 40 {
 			iv = "weekly"
 		}
+		if h.lastAccrual != nil && h.lastAccrual.Start >= lo && rapid.IntRange(0, 2).Draw(t, "sameWindow") == 0 {
+			// the same window as an earlier accrual, with another interval
+			start, end = h.lastAccrual.Start, h.lastAccrual.End
+			for _, cand := range []string{"monthly", "quarterly", "weekly"} {
+				if cand != h.lastAccrual.Interval {
+					iv = cand
+					break
+				}
+			}
+			if iv == "weekly" && end-start > 400 {
+				iv = "quarterly"
+			}
+		}
 		for _, a := range append(involved, accr) {
 			if a.lockUntil < end {
 				a.lockUntil = end
 			}
 		}
 		d := ref.Directive{Accrual: &ref.Accrual{Interval: iv, Start: start, End: end, Account: accr.name}}
+		h.lastAccrual = d.Accrual
 		h.drawPerf(&d)
 		// positions: non-I/E halves hit the account on the booking date; the accrual account gets the counter-entries
 		d.Kind, d.Date, d.Bookings, d.Desc = ref.KTrx, h.day, bs, h.desc()
